@@ -5,7 +5,7 @@
 
    Event records (props/C24.py).  Every request head that one of the harness's peers reads from the bytes mitmproxy
    sent on an upstream connection (TLS terminated by the peer, CONNECT answered by the peer):
-     [k |-> "req", mode, auth, peer, level, kind, scheme, tls, cred]
+     [k |-> "req", mode, auth, peer, level, kind, scheme, tls, cred, src, fl]
         mode    proxy mode of the client connection: "regular" | "upstream" | "transparent" | "socks5" | "reverse"
         auth    upstream_auth is configured
         peer    whom the TCP connection goes to: "proxy" (the configured upstream proxy), "target" (the reverse
@@ -16,6 +16,11 @@
         scheme  scheme of an absolute-form target, "" otherwise
         tls     the head was protected by TLS at its level
         cred    the configured credentials occur in the head
+        src     what the client was doing when mitmproxy wrote this head (stimulus, known to the harness):
+                "proxy_request" (a request addressed to mitmproxy as explicit proxy), "client_tunnel" (inside the
+                client's own CONNECT tunnel), "direct" (transparent / socks5 / reverse client)
+        fl      flavour of that client request: "get" | "ws" (WebSocket opening handshake: Upgrade: websocket) | "post"
+                | "head" | "expect" (Expect: 100-continue) | "h2c" (Upgrade: h2c); "" for mitmproxy's own CONNECT
    and, at the end, for every level of every upstream connection one record about all bytes that arrived there:
      [k |-> "scan", mode, auth, peer, level, tls, cred]         (cred: the credentials occur anywhere in them)
      [k |-> "raised", exc]   [k |-> "end"]                                                                     *)
@@ -24,6 +29,10 @@ EXTENDS Verif
 MonInit == [bad |-> <<>>, wit |-> {}]
 
 Tls(ev) == IF ev.tls THEN "tls" ELSE "plain"
+\* signature field: form of the head as the peer read it; marked when the client had asked mitmproxy for it as a proxy
+\* request (and not inside its own CONNECT tunnel)
+Kind(ev) == LET kd == Get(ev, "kind", "bytes") IN
+            IF Get(ev, "src", "") = "proxy_request" THEN "proxy_request_" \o kd ELSE kd
 
 \* where the statement allows the credentials to be
 Allowed(ev) ==
@@ -33,7 +42,7 @@ Allowed(ev) ==
 Clause(m, ev) ==
   CASE ev.k \in {"req", "scan"} ->
          IF ~ev.cred THEN <<>>
-         ELSE IF ev.level = "tunnel" THEN <<"C24.credentials_in_tunnel", ev.mode, Tls(ev), Get(ev, "kind", "bytes")>>
+         ELSE IF ev.level = "tunnel" THEN <<"C24.credentials_in_tunnel", ev.mode, Tls(ev), Kind(ev)>>
          ELSE IF ev.mode \notin {"upstream", "reverse"} THEN <<"C24.credentials_in_other_mode", ev.mode>>
          ELSE IF ~Allowed(ev) THEN <<"C24.credentials_to_wrong_peer", ev.mode, ev.peer>>
          \* upstream mode: only CONNECT requests and forwarded plain-HTTP requests carry them
@@ -53,6 +62,9 @@ Witness(ev) ==
        \cup (IF ev.auth /\ ev.mode \notin {"upstream", "reverse"} THEN {"auth_other_mode_" \o ev.mode} ELSE {})
        \cup (IF ev.auth /\ ev.mode = "reverse" /\ ev.tls THEN {"auth_reverse_tls"} ELSE {})
        \cup (IF ~ev.auth THEN {"auth_unset"} ELSE {})
+       \cup (IF ev.auth /\ Get(ev, "fl", "") \notin {"", "get", "ws"} THEN {"auth_flavour_other"} ELSE {})
+       \cup (IF ev.auth /\ ev.mode = "upstream" /\ Get(ev, "fl", "") = "ws" /\ Get(ev, "src", "") = "proxy_request"
+             THEN {"auth_upstream_ws_handshake"} ELSE {})
 
 MonStep(m, ev) == [m EXCEPT !.bad = Clause(m, ev), !.wit = @ \cup Witness(ev)]
 Wit(m) == m.wit
